@@ -15,7 +15,28 @@ from vlib.pool import Pool
 from checks.c20 import clean_flags
 
 
+MULTILINE = [
+    # errors whose origin span covers several physical lines (secondary contexts, decorators, multi-line signatures/calls)
+    "class A:\n    def f(self, x: int) -> None: ...\n    def __eq__(self, other: object) -> bool: return True\nclass B(A):\n    def f(self,\n          x: str) -> None: ...\n    def __eq__(self,\n               other: 'B') -> bool: return True\n",
+    "class P:\n    def __eq__(self,\n               other: int,\n               ) -> bool:\n        return True\n    def __ne__(\n        self, other: str\n    ) -> bool:\n        return False\n",
+    "def f(a: int,\n      b: str) -> None: ...\nf(\n    'x',\n    1,\n)\nf('y',\n  2)\n",
+    "from typing import Callable\ndef deco(f: Callable[[int], int]) -> Callable[[int], int]: return f\n@deco\ndef g(\n    x: str,\n) -> int:\n    return 1\n",
+    "x: int = (\n    'a'\n    'b'\n)\ny: dict[str, int] = {\n    'k': 'v',\n    'k2': 2,\n    3: 3,\n}\n",
+    "class Base:\n    @property\n    def p(self) -> int: return 1\n    def m(self, a: int, b: int) -> int: return a\nclass D(Base):\n    @property\n    def p(self) -> str: return ''\n    def m(self,\n          a: int,\n          b: str,\n          ) -> str:\n        return b\n",
+    "import os\nfrom typing import (\n    List,\n    NoSuchName,\n    Dict,\n)\nfrom os import (\n    path,\n    nothing_here,\n)\n",
+    "def h() -> int:\n    return (\n        'not'\n        ' an int'\n    )\nz = [\n    1 + '',\n    2 + '',\n]\n",
+    "from typing import overload\n@overload\ndef o(x: int) -> int: ...\n@overload\ndef o(x: str) -> str: ...\ndef o(x):\n    return x\no(\n    b'bytes'\n)\n",
+    "class T:\n    def __init__(self,\n                 a: int) -> None:\n        self.a: str = a\nT(\n  'q')\nwith open(1.5) as fh, \\\n     open(2.5) as gh:\n    pass\n",
+]
+
+
 def gen(ctx: common.Ctx, n: int) -> Iterator[dict[str, Any]]:
+    for mi, msrc in enumerate(MULTILINE):
+        for rep in range(3):
+            yield {"fn": "vlib.tasks.suppress:suppress",
+                   "args": {"files": {"main.py": msrc}, "flags": [], "target": "main.py", "key": ["C13", "multiline", mi, rep],
+                            "n_transforms": 8, "all_span_lines": True},
+                   "_case": f"multiline{mi}.{rep}", "_ops": ["multiline"]}
     cases = [c for c in corpus.load(["check-*.test"]) if not corpus.uses_fixture_only_features(c) and not c.cmd and not corpus.has_config_files(c)]
     import random
     rng = random.Random("C13-core-order")   # core workload is seed-independent
@@ -118,6 +139,8 @@ def run(ctx: common.Ctx) -> None:
                     if res.get("failed"):
                         ctx.inconc("internal-failure (owner: C20)")
                     continue
+                if res.get("json_status_mismatch"):
+                    ctx.violation("exit-status:differs-with---output-json", f"exit status {res['json_status_mismatch']}", {"task": t, **res["json_status_mismatch"]}, case=t["_case"])
                 if res.get("status_ok") is False:
                     ctx.violation("exit-status:baseline", f"exit status {res['status0']} inconsistent with error lines", {"task": t, "out": res["out0"]}, case=t["_case"])
                 for case in res["cases"]:
